@@ -186,26 +186,47 @@ auto ebpps_sketch<T,A>::get_result() const -> result_type {
 
 template<typename T, typename A>
 void ebpps_sketch<T, A>::merge(ebpps_sketch<T, A>&& sk) {
-  if (sk.get_cumulative_weight() == 0.0) return;
-  else if (sk.get_cumulative_weight() > get_cumulative_weight()) {
+  if (sk.get_cumulative_weight() == 0.0) {
+    shrink_to_k(sk.k_);
+    return;
+  } else if (sk.get_cumulative_weight() > get_cumulative_weight()) {
     // need to swap this with sk to merge smaller into larger
     std::swap(*this, sk);
   }
 
-  internal_merge(sk);
+  if (sk.get_cumulative_weight() == 0.0)
+    shrink_to_k(sk.k_); // sk (the former *this) is empty: nothing to insert
+  else
+    internal_merge(sk);
 }
 
 template<typename T, typename A>
 void ebpps_sketch<T, A>::merge(const ebpps_sketch<T, A>& sk) {
-  if (sk.get_cumulative_weight() == 0.0) return;
-  else if (sk.get_cumulative_weight() > get_cumulative_weight()) {
+  if (sk.get_cumulative_weight() == 0.0) {
+    shrink_to_k(sk.k_);
+  } else if (sk.get_cumulative_weight() > get_cumulative_weight()) {
     // need to swap this with sk to merge, so make a copy, swap,
     // and use that to merge
     ebpps_sketch sk_copy(sk);
     swap(*this, sk_copy);
-    internal_merge(sk_copy);
+    if (sk_copy.get_cumulative_weight() == 0.0)
+      shrink_to_k(sk_copy.k_); // the former *this is empty: nothing to insert
+    else
+      internal_merge(sk_copy);
   } else {
     internal_merge(sk);
+  }
+}
+
+// An empty merge operand contributes no items but still bounds the result by its k:
+// take the smaller k and bring the sample down to it (a no-op if k does not shrink).
+template<typename T, typename A>
+void ebpps_sketch<T, A>::shrink_to_k(uint32_t k) {
+  k_ = std::min(k_, k);
+  if (cumulative_wt_ > 0.0) {
+    const double new_rho = std::min(1.0 / wt_max_, k_ / cumulative_wt_);
+    sample_.downsample(new_rho / rho_);
+    rho_ = new_rho;
   }
 }
 
